@@ -46,6 +46,8 @@ def configs(tier):
             out.append({"classes": cs, "filter": filt, "clause": "table"})
     for cs in ([["DE", "UE"]] if tier == "quick" else [["DE", "UE"], ["DE", "TE", "UE"]]):
         out.append({"classes": cs, "filter": "uf", "clause": "table", "eq": True})
+    # the filter is a callable OBJECT whose truth value is False (an empty callable container): still a filter
+    out.append({"classes": ["DE", "UE", "TE"], "filter": "uf_falsy", "clause": "table"})
     # duality runs two queries on two symbolic vertices: 2 links (quick) / 3 links (thorough)
     duals = [["DE", "UE"], ["DE", "TE"], ["SD", "DE"], ["TE", "SU"]]
     if tier != "quick":
@@ -112,7 +114,7 @@ def scenario(B, p):
         B.observe(k, val)
     if p["clause"] == "table":
         d = B.int("direction", 0, 2)
-        ff = B.uf("ff", [links, verts], "bool") if p["filter"] == "uf" else None
+        ff = B.uf("ff", [links, verts], "bool", falsy=p["filter"] == "uf_falsy") if p["filter"] in ("uf", "uf_falsy") else None
         v = verts[0]          # by symmetry of the symbolic ends any vertex is the queried one
         out = B.run(PROG_TABLE, {"v": v, "d": d, "u": u, "ff": ff})
         B.observe("got", out["got"])
